@@ -167,7 +167,7 @@ pub fn check_c13_c15(h: &Hist, want13: bool, want15: bool) -> POut {
     // R1: flush arithmetic at the end of runs without close
     if want15 && first_close_inv.is_none() {
         if let Some(cp) = h.cps.iter().filter(|c| c.quiescent).last() {
-            let lookups = h.ops.iter().filter(|o| matches!(o.op, Op::Get { .. } | Op::GetMut { .. }) && o.ret_seq_or_max() < cp.seq).count() as u64;
+            let lookups: u64 = h.ops.iter().filter(|o| o.ret_seq_or_max() < cp.seq).map(|o| o.op.lookups()).sum();
             let capa = cfg.buffer_items as u64;
             let expect = if capa <= 1 { lookups } else { lookups - lookups % capa };
             let pushed_before: u64 = h.obs().filter(|(e, _)| e.seq < cp.seq).map(|(_, o)| if let ObsEv::Push { keys, .. } = o { keys.len() as u64 } else { 0 }).sum();
